@@ -81,7 +81,7 @@ func scenario(seed int64, k int, res *l2.Result) {
 		}
 	}
 	b.StopBackground()
-	res.Count("samples", b.Sampled.Load())
+	res.Count("api_samples", b.Sampled.Load())
 	res.Count("events_logged", w.Log.Len())
 	if v := b.SafetyViolation(); v != "" {
 		res.Violate(evid.Sig("c04/unsafe-best-block", classify(plan)), v, witness())
